@@ -221,11 +221,13 @@ impl TokenType {
         match self {
             If | Else | While | Array | Of | Proc | Ref | Type | Var | Colon | Divide | Lt | Gt
             | Int(_) | Ident(_) | Hex(_) => 1,
+            // a comment without trailing newline grows with every appended character
+            Comment(_) => 1,
             // a lone `'` at the end of the text turns into a char literal
             // as soon as another character follows
             Unknown(_) => 1,
             LParen | RParen | LBracket | RBracket | LCurly | RCurly | Eq | Neq | Le | Ge
-            | Assign | Comma | Semic | Plus | Minus | Times | Comment(_) | Eof => 0,
+            | Assign | Comma | Semic | Plus | Minus | Times | Eof => 0,
             Char(_) => {
                 1 // this is a worst case look ahead.
             }
